@@ -83,16 +83,16 @@ var vxConcScen = [][]int{
 }
 
 func VxC15_Conc() {
+	hasPrev := vxChoice("prev", 2) == 1
+	scen := vxConcScen[vxChoice("scenario", len(vxConcScen))]
 	enc := false
-	if vxTier() == "thorough" || !vxIsSymbolic() {
+	if (vxTier() == "thorough" && len(scen) == 2) || !vxIsSymbolic() {
 		enc = vxChoice("encrypt", 2) == 1 // (quick: the cut harness covers encryption)
 	}
 	var opts []Option
 	if enc {
 		opts = append(opts, WithEncryption(vxTestKeyB64))
 	}
-	hasPrev := vxChoice("prev", 2) == 1
-	scen := vxConcScen[vxChoice("scenario", len(vxConcScen))]
 	if len(scen) > 2 && vxTier() != "thorough" {
 		vxPreemptBound(2) // quick: three goroutines with at most two preemptions; pairs are exhaustive
 	}
